@@ -17,7 +17,9 @@ def run(chk):
     ]
     # every single-pattern table x every path; the harness looks every cell up on a plain router and, twice each
     # (miss then hit), on caching routers with capacity 1 (constant eviction) and 1000
-    c01.run_instance(chk, "params-abc", pool, 6 if thorough else 5, 1, chars=("/", "a", "b", "1", "."), only=PAR)
+    # (plus very many distinct URLs on a router with the largest possible cache, each looked up twice)
+    c01.run_instance(chk, "params-abc", pool, 6 if thorough else 5, 1, chars=("/", "a", "b", "1", "."), only=PAR,
+                     harness_env={"VERIF_MATCH_MANY": "1500000" if thorough else "400000"})
     c01.run_instance(chk, "params-digits", [p for p in pool if "dig" in p or "num" in p or "word" in p or "all" in p],
                      6 if thorough else 5, 2 if thorough else 1, chars=("/", "1", "0", "a", "_"), only=PAR)
     # UseEncodedPath: the router matches the ESCAPED path, '%' is a character like any other, parameters are the
